@@ -20,6 +20,40 @@ inductive GoTy where
   | other (text : String)
   deriving Repr, DecidableEq, Inhabited
 
+/-- one statement of a client method's body, as `harness/cmd/c13facts/skeleton.go` classifies it. The
+kinds follow the value through the body: `assert` asserts on the variable the request call defined,
+`ret` returns the variable that assertion defined (anything else is `other`).
+
+    call          x, err := <receiver>.MakeRequest…(…)      -- the only request call so far
+    ifErr         if err != nil { return <zero>, errors.Wrap(err, …) }     -- the call's err; nothing else
+    assert        resp, ok := x.(T)                         -- x of the call
+    ifNotOkPanic  if !ok { panic(…) }                       -- ok of the assertion
+    ret           return resp, nil                          -- resp of the assertion
+    retAssert     return x.(T), nil                         -- x of the call
+    other kind    any other statement (early return, cache look-up, loop, assignment, second call …) -/
+inductive BodyStmt where
+  | call | ifErr | assert | ifNotOkPanic | ret | retAssert
+  | other (kind : String)
+  deriving Repr, DecidableEq, Inhabited
+
+def BodyStmt.show : BodyStmt → String
+  | .call => "call" | .ifErr => "iferr" | .assert => "assert" | .ifNotOkPanic => "ifnotok-panic"
+  | .ret => "ret" | .retAssert => "ret-assert" | .other k => "other:" ++ k
+
+/-- **the model of "sends the request and returns its answer"** for a generated method: the body is
+exactly — send the request; on a transport/RPC error return it wrapped; assert the answer to the result
+type; a wrong type is a panic; return the asserted answer. This is the one body `tlgen` emits (all 343
+methods of the unchanged tree). No statement in front of the request (a cached copy answering instead
+of the server), none between the answer and the `return` (the answer replaced or post-processed), no
+second request, no branch. -/
+def generatedSkeletons : List (List BodyStmt) :=
+  [[.call, .ifErr, .assert, .ifNotOkPanic, .ret]]
+
+/-- the same for the hand-written wrappers of `methods_special.go` (`InitConnection`, `InvokeWithLayer`,
+`InvokeWithTakeout`): send; on error return it wrapped; return the answer asserted to `tl.Object`. -/
+def handWrittenSkeletons : List (List BodyStmt) :=
+  [[.call, .ifErr, .retAssert]]
+
 structure MethodFact where
   name : String                       -- Go method name
   reqFull : String                    -- request struct type, "telegram.AuthSendCodeParams"
@@ -31,6 +65,7 @@ structure MethodFact where
   hint : Option GoTy                  -- T in reflect.TypeOf(T{})
   asserted : GoTy                     -- type asserted on the response
   retType : GoTy                      -- declared first result type
+  skeleton : List BodyStmt            -- the statements of the body, in order
   deriving Repr
 
 structure WrapperFact where
@@ -99,10 +134,13 @@ def resultMatches (T : Tables) (R : Registry) (shape : ResultShape) (m : MethodF
      | _ => false)
   | .boxed t => m.call == "MakeRequest" && m.hint.isNone && holds T R (.ref t) m.asserted
 
+/-- the body of a generated method is the generator's: request, error check, assertion, return -/
+def skeletonOk (m : MethodFact) : Bool := generatedSkeletons.contains m.skeleton
+
 /-- one generated method against registry and schema: it sends a request of its function's
 constructor, its arguments go to the fields in the schema's parameter positions (argument i ↦ field i,
 same Go type), and the answer is returned as the result kind the schema declares. -/
-def methodOk (T : Tables) (R : Registry) (S : List Def) (m : MethodFact) : Bool :=
+def methodShapeOk (T : Tables) (R : Registry) (S : List Def) (m : MethodFact) : Bool :=
   match R.find m.reqId with
   | none => false
   | some c =>
@@ -121,6 +159,11 @@ def methodOk (T : Tables) (R : Registry) (S : List Def) (m : MethodFact) : Bool 
         (List.zip m.args c.fields).all (fun (a, f) => goTyIs R a.2 f.ty && m.assign.contains (f.name, a.1))) &&
       m.asserted == m.retType &&
       resultMatches T R (shapeOf d) m
+
+/-- shape and body: the facts `methodShapeOk` compares (which call, which literal, which assertion) are
+read off the statements `skeletonOk` pins down, and there is no other statement -/
+def methodOk (T : Tables) (R : Registry) (S : List Def) (m : MethodFact) : Bool :=
+  skeletonOk m && methodShapeOk T R S m
 
 /-- the codec type of a wrapper field as written in the Go source -/
 def tyOfGoTy (T : Tables) : GoTy → Option Ty
@@ -153,5 +196,21 @@ def wrapperOk (T : Tables) (R : Registry) (S : List Def) (w : WrapperFact) : Boo
         | none, none => true
         | some n, some f => n == f.bit && f.inBits == (p.ty == .prim bTrue)
         | _, _ => false))
+
+/-- the client method of a hand-written wrapper: it sends its wrapper's constructor (the struct handed
+through, or a literal that sets exactly the wrapper's fields), returns the answer as `tl.Object`, and
+its body is send / error check / return the asserted answer -/
+def wrapperMethodOk (W : List WrapperFact) (m : MethodFact) : Bool :=
+  handWrittenSkeletons.contains m.skeleton &&
+  m.call == "MakeRequest" && m.hint.isNone && m.asserted == .obj && m.retType == .obj &&
+  W.any fun w =>
+    w.name == m.reqFull && w.id == m.reqId &&
+    (if m.passThrough then
+      m.assign.isEmpty &&
+      (match m.args with
+       | [(_, .ptr full)] => full == m.reqFull
+       | _ => false)
+     else
+      m.args.length == w.fields.length && m.assign.map (·.1) == w.fields.map (·.1))
 
 end Mtv.Schema
